@@ -281,22 +281,26 @@ def _write(ws, item, inst):
     pts = Points.create(ws, vertices=rng.random((nv, 3)), name="p")
     obs["obj"] = pts.uid
     data = None
-    # preparation (not part of the verdict)
-    if fam in ("Numeric", "Text") and op == "set":
-        spec = {"values": _good(kind, nv), "type": KIND_TYPE[kind], "association": "VERTEX"}
-        if kind == "Referenced":
-            spec["value_map"] = dict(REF_MAP)
-        data = pts.add_data({"d": spec})
-    elif fam == "Map":
-        ints = [int(k) if isinstance(k, (int, np.integer)) and 0 <= int(k) <= R.I32MAX else 0 for k in inst["elems"]]
-        obs["refs"] = ints
-        if op == "assign":
-            data = pts.add_data({"d": {"values": np.array(ints, dtype="int32"), "type": "REFERENCED",
-                                       "association": "VERTEX", "value_map": {1: "old"}}})
-    elif fam == "Json" and op == "append":
-        pts.add_comment("earlier comment", "someone")
-    elif fam == "Blob" and op == "set":
-        data = pts.add_file(b"old content", name=inst["aux"][0])
+    # preparation with ordinary values (not part of the verdict; a refusal here is reported on its own)
+    try:
+        if fam in ("Numeric", "Text") and op == "set":
+            spec = {"values": _good(kind, nv), "type": KIND_TYPE[kind], "association": "VERTEX"}
+            if kind == "Referenced":
+                spec["value_map"] = dict(REF_MAP)
+            data = pts.add_data({"d": spec})
+        elif fam == "Map":
+            ints = [int(k) if isinstance(k, (int, np.integer)) and 0 <= int(k) <= R.I32MAX else 0 for k in inst["elems"]]
+            obs["refs"] = ints
+            if op == "assign":
+                data = pts.add_data({"d": {"values": np.array(ints, dtype="int32"), "type": "REFERENCED",
+                                           "association": "VERTEX", "value_map": {1: "old"}}})
+        elif fam == "Json" and op == "append":
+            pts.add_comment("earlier comment", "someone")
+        elif fam == "Blob" and op == "set":
+            data = pts.add_file(b"old content", name=inst["aux"][0])
+    except Exception as exc:  # pylint: disable=broad-except
+        obs.update(verdict="reject", prep=True, exc=f"{type(exc).__name__}: {str(exc)[:100]}")
+        return obs
     try:
         if fam in ("Numeric", "Text"):
             if op == "set":
@@ -473,7 +477,7 @@ def _mismatches(item, inst, obs, outc):
             okt = {"float": k == "f", "int32": (k, size) == ("i", 4), "int8": k in "iu",
                    "utf8": k in "OSU"}[outc["stype"]]
             if not okt:
-                bad.append(("raw-type", f"raw 'Data' dataset has dtype kind {k}{size}, stored type is {outc['stype']}"))
+                bad.append(("raw-type", f"raw 'Data' dataset has dtype {k}{size}, the stored type is {outc['stype']}"))
             for i, got in enumerate(data):
                 tag, val = want("stored", i)
                 good = is_fndv(got) if tag == "fndv" else same(got, val)
@@ -481,8 +485,7 @@ def _mismatches(item, inst, obs, outc):
                     bad.append(("raw", f"raw[{i}]={_item(got)!r} expected {'FLOAT_NDV' if tag == 'fndv' else repr(val)}"))
         # after re-open
         if "exc" in back:
-            if not (n_st and all(want("back", i)[0] == "unreadable" for i in range(n_st)
-                                 if outc["back"][i] == "Unreadable") and "Unreadable" in outc["back"]):
+            if "Unreadable" not in outc["back"]:
                 bad.append(("back", f"reading the values back raises {back['exc']}"))
         elif "Unreadable" in outc["back"]:
             bad.append(("back", "values expected to be unreadable were read"))
@@ -607,6 +610,9 @@ def judge(item, inst, obs):
     """-> (violations, tag).  tag in ok | drift | dev:<signature> | violation"""
     c, o, ab = item["c"], item["o"], item["ab"]
     doc = {k: item[k] for k in ("c", "o", "ab", "pick", "seed", "extra")}
+    if obs.get("prep"):
+        summary = f"{_describe(item, inst)}: the preparatory write of ordinary values is refused: {obs['exc']}"
+        return [{"signature": f"refused-ordinary-value:{c['kind']}", "summary": summary, "case": doc}], "violation"
     lenient = o["optional"]  # C08 does not decide the verdict; an accepted write must still round-trip
     if lenient and obs["verdict"] == "reject":
         return [], ("ok" if o["verdict"] == "reject" else "drift")
